@@ -171,3 +171,27 @@ def fsum_abs(a):
 
 def prod_shape(shape):
     return int(math.prod(shape))
+
+
+def joint_vs_solo(arrays, scheduler="sync"):
+    """Compute the collections together and one by one; returns the indices whose joint result differs from
+    the solo result (key/name collisions between different collections show up here), NaN == NaN."""
+    import dask
+    with warnings.catch_warnings():
+        warnings.simplefilter("ignore")
+        joint = dask.compute(*arrays, scheduler=scheduler)
+        bad = []
+        for i, (x, j) in enumerate(zip(arrays, joint)):
+            s = x.compute(scheduler=scheduler)
+            try:
+                if np.ma.isMaskedArray(s) or np.ma.isMaskedArray(j):
+                    same = np.array_equal(np.ma.getmaskarray(s), np.ma.getmaskarray(j)) and \
+                        np.array_equal(np.ma.filled(s, 0), np.ma.filled(j, 0), equal_nan=True)
+                else:
+                    s_, j_ = np.asarray(s), np.asarray(j)
+                    same = s_.shape == j_.shape and bool(np.array_equal(s_, j_, equal_nan=s_.dtype.kind in "fc"))
+            except TypeError:
+                same = bool(np.array_equal(np.asarray(s), np.asarray(j)))
+            if not same:
+                bad.append(i)
+    return bad
